@@ -129,6 +129,195 @@ def C37(ctx):
                     "covers the whole bounded universe; distinct = distinct cases" % (consts["CAmts0"], consts["Ids"], consts["FAmts"])}
 
 
+# ---------------------------------------------------------------------------------------------
+# C36 ManifestLifecycle
+
+def C36(ctx):
+    q = ctx.quick
+    viol = _Viol(ctx)
+    t0 = time.time()
+    g = tlc("ManifestLifecycle", "GenManifestLifecycle", workers=8, coverage=False, consts={"MaxLen": 2 if q else 3}, timeout=3000)
+    tlc_must_pass(g, "GenManifestLifecycle")
+    ctx.add_tlc(g)
+    cases = g.printed("B")
+    if len(cases) != g.distinct:
+        raise ToolError("GenManifestLifecycle printed %d cases for %d states" % (len(cases), g.distinct))
+    kinds = {c["m"]["kind"] for c in cases}
+    ops = {i["op"] for c in cases for i in c["m"]["ins"]}
+    if kinds != {"v1", "v2", "sub", "system"} or len(ops) < 16 or not any(c["ok_all"] for c in cases) \
+            or not any(c["ok_bab"] and not c["ok_all"] for c in cases) or not any(not c["ok_bab"] for c in cases):
+        raise ToolError("vacuous lifecycle universe: kinds %s, %d ops" % (sorted(kinds), len(ops)))
+    if os.environ.get("VERIF_CORRUPT"):     # demonstration of binding
+        bad = next(c for c in cases if c["ok_all"] and len(c["m"]["ins"]) == 2)
+        bad["ok_all"] = False
+        core.log("VERIF_CORRUPT: one well-formed manifest is now expected to be ill-formed")
+    mism, counts, done = _run_replay(ctx, ["lifecycle", "replay"], cases, "gm")
+    for o in mism:
+        c = cases[o["b"]]
+        what = o["mismatch"]
+        cls = "accepts-ill-formed" if "accepts an ill-formed" in what else ("lifecycle-error-at-run-time" if "id-lifecycle" in what else what.replace(" ", "-"))
+        viol.add("lifecycle:%s:%s" % (c["m"]["kind"], cls), "G: %s: %s; manifest %s" % (what, json.dumps(o["got"])[:200], json.dumps(c["m"])[:400]),
+                 {"case": c, "mismatch": o})
+    accepted_run = sum(v for k, v in counts.items() if k.startswith("run:") and k != "run:not-run")
+    if not counts.get("run:commit"):
+        raise ToolError("no accepted manifest committed at run time: %s" % counts)
+    core.log("GenManifestLifecycle + replay: %d manifests, %.1fs; %s" % (len(cases), time.time() - t0, {k: v for k, v in counts.items() if k.startswith("run:") or k.startswith("info")})); t0 = time.time()
+    # binding self-test (G)
+    s1 = copy.deepcopy(next(c for c in cases if c["ok_all"] and c["m"]["kind"] == "v2" and len(c["m"]["ins"]) == 2)); s1["ok_all"] = False
+    s2 = copy.deepcopy(next(c for c in cases if c["ok_all"] and c["m"]["kind"] == "v1" and c["m"]["ins"] == [])); s2["lerr_all"] = s2["lerr_all"] + ["commit", "other"]
+    for case, kind in ((s1, "accepts an ill-formed manifest"), (s2, "id-lifecycle error")):
+        cov = copy.deepcopy(ctx.cov)
+        m, _, _ = _run_replay(ctx, ["lifecycle", "replay"], [case], "selftest")
+        ctx.cov.update(cov)
+        if not any(kind in o["mismatch"] for o in m):
+            raise ToolError("binding self-test (G) failed: '%s' not reported" % kind)
+    # T: random longer manifests
+    tp = ctx.wpath("lc-trace.ndjson")
+    vh(BIN, ["lifecycle", "record", "seed=%d" % ctx.seed, "n=%d" % (1500 if q else 50000)], stdout_path=tp)
+    evs = read_ndjson(tp)
+    os.unlink(tp)
+    by = lambda pred: copy.deepcopy(next(e for e in evs if pred(e)))
+    muts = []
+    e = by(lambda e: e["static"]["all"].startswith("err:BucketNotYet")); e["static"]["all"] = "ok"; muts.append((e, "accept-implies-ok-all"))
+    e = by(lambda e: e["static"]["all"] == "ok" and e["run"]["cls"] == "commit"); e["run"]["cls"] = "BucketNotFound"; muts.append((e, "no-lifecycle-error-at-run-time"))
+    e = by(lambda e: e["static"]["babylon"].startswith("err:") and e["m"]["kind"] == "v1"); e["static"]["babylon"] = "ok"; muts.append((e, "accept-implies-ok-babylon"))
+    chunks = 6 if q else 12
+    bad = validate_calls_why("ManifestLifecycle", "TraceLifecycle", "TraceLifecycle", evs + [m for m, _ in muts], "C36-lc", chunks=chunks)
+    for j, (m, reason) in enumerate(muts):
+        if reason not in bad.get(len(evs) + j, []):
+            raise ToolError("binding self-test (T) failed: corrupted event not rejected for '%s' (got %s)" % (reason, bad.get(len(evs) + j)))
+    for i in sorted(bad):
+        if i < len(evs):
+            e = evs[i]
+            for why in bad[i]:
+                viol.add("lifecycle:%s:%s" % (e["m"]["kind"], why), "TraceLifecycle: '%s' fails: static %s, run %s, manifest %s" % (
+                    why, json.dumps(e["static"]), json.dumps(e["run"])[:200], json.dumps(e["m"])[:400]), {"event": e, "failed": bad[i]})
+    ctx.cov["traces_validated_against_impl"] += chunks
+    ctx.cov["evaluations"] += len(evs)
+    acc = sum(1 for e in evs if e["static"]["all"] == "ok")
+    ran = {}
+    for e in evs:
+        ran[e["run"]["cls"]] = ran.get(e["run"]["cls"], 0) + 1
+    core.log("TraceLifecycle: %d manifests (%d accepted), %.1fs; run outcomes %s" % (len(evs), acc, time.time() - t0, ran))
+    ctx.sample({"manifest_case": next(c for c in cases if c["ok_all"] and len(c["m"]["ins"]) == 2 and c["m"]["kind"] == "sub")})
+    ctx.sample({"manifest_case": next(c for c in cases if c["ok_bab"] and not c["ok_all"])})
+    ctx.sample({"random_manifest_event": next(e for e in evs if e["static"]["all"] == "ok" and len(e["m"]["ins"]) >= 8)})
+    ctx.sample({"random_manifest_event": next(e for e in evs if e["static"]["all"].startswith("err:BucketConsumedWhilst") or e["static"]["all"].startswith("err:BucketAlready"))})
+    return {"exhaustive": False, "distinct_nontrivial": len({json.dumps(c["m"], sort_keys=True) for c in cases}) + len({json.dumps(e["m"], sort_keys=True) for e in evs}),
+            "generated_manifests": len(cases), "generated_accepted_and_executed": accepted_run, "replay_counts": counts,
+            "random_manifests": len(evs), "random_accepted": acc, "random_run_outcomes": ran, "violation_counts": dict(viol.seen),
+            "rule": "S+G: TLC enumerates every instruction sequence of length <= %d over 36 abstract instructions (27 for V1 kinds; 2 bucket "
+                    "ids, 2 proof ids, 1 reservation, 1 named address, 1 child, declared / undeclared blob) for 7 kind configurations "
+                    "(TransactionManifestV1, SystemTransactionManifestV1 with 0/1 pre-allocated address, TransactionManifestV2 and "
+                    "SubintentManifestV2 with 0/1 child), checks that the declarative StaticOK and the incremental automaton agree under "
+                    "both rule sets, and prints each with StaticOK; the harness builds the manifest from instruction structs, runs "
+                    "StaticManifestInterpreter::validate under all() / cuttlefish() (and babylon_equivalent() for V1 kinds) and "
+                    "executes every accepted manifest on a LedgerSimulator (subintents under a funding root intent, children as simple "
+                    "subintents).  Violation directions only: accepted but not StaticOK; accepted and failing at run time with "
+                    "BucketNotFound / ProofNotFound / AddressReservationNotFound / AddressNotFound / BlobNotFound / InvalidIntentIndex.  "
+                    "T: seeded random manifests of 2-16 instructions (about half well-formed, the others with one injected fault: "
+                    "unknown / consumed id, locked bucket, proof across intents, missing invocation after ASSERT_NEXT_CALL_RETURNS, "
+                    "wrong kind) evaluated the same way and judged by TraceLifecycle.  distinct = distinct manifests" % (2 if q else 3)}
+
+
+# ---------------------------------------------------------------------------------------------
+# C38 Movements
+
+def C38(ctx):
+    q = ctx.quick
+    viol = _Viol(ctx)
+    t0 = time.time()
+    r = tlc("Movements", "Movements", workers=8, consts={"MaxAmt": 2 if q else 3, "MaxSteps": 5 if q else 7}, timeout=3000)
+    tlc_must_pass(r, "Movements", required_actions=["Withdraw", "UnknownCall", "Take", "TakeAll", "Return", "AssertAtLeast", "Deposit", "TryDepositOrRefund"])
+    ctx.add_tlc(r)
+    core.log("Movements model: %d states, %.1fs" % (r.distinct, time.time() - t0)); t0 = time.time()
+    tp = ctx.wpath("mv-trace.ndjson")
+    vh(BIN, ["movements", "record", "seed=%d" % ctx.seed, "n=%d" % (700 if q else 30000)], stdout_path=tp, timeout=7200)
+    allev = read_ndjson(tp)
+    os.unlink(tp)
+    stats = next(e for e in allev if e["k"] == "stats")["stats"]
+    evs = [e for e in allev if e["k"] == "run"]
+    nopred = [e for e in allev if e["k"] == "noprediction"]
+    if len(evs) < 100 or not any(e["state"] == 1 for e in evs):
+        raise ToolError("too few successful executions recorded: %s" % stats)
+    for e in nopred:
+        if e["pred"]["status"] == "panic":
+            stats["analyser-panics"] = stats.get("analyser-panics", 0) + 1
+    core.log("movements record: %d successful runs, %.1fs; %s" % (len(evs), time.time() - t0, stats)); t0 = time.time()
+    if os.environ.get("VERIF_CORRUPT"):     # demonstration of binding
+        e = next(e for e in evs if e["act"]["B"]["dep"]["F"]["a"] > 0 and e["pred"]["dep"]["B"] and "F" in e["pred"]["dep"]["B"][0]["specified"]
+                 and e["pred"]["dep"]["B"][0]["spec"]["F"]["hi"]["k"] == "incl")
+        e["act"]["B"]["dep"]["F"]["a"] += 400
+        e["act"]["B"]["net"]["F"] += 400
+        core.log("VERIF_CORRUPT: account B now received 100 more F than recorded in one run")
+    # non-vacuity: the recorded predictions exercise the interesting shapes
+    shapes = set()
+    for e in evs:
+        for a in ("A", "B", "C"):
+            for d in e["pred"]["dep"][a]:
+                shapes.add("unspec" if d["unspec"] else "closed")
+                for rname in d["specified"]:
+                    c = d["spec"][rname]
+                    shapes.add("%s:%s-%s" % ("nf" if rname == "N" else "f", c["lo"]["k"], c["hi"]["k"]))
+    need = {"closed", "unspec", "f:incl-incl", "f:incl-unb", "nf:incl-incl"}
+    if not need <= shapes:
+        raise ToolError("recorded predictions lack shapes %s (have %s)" % (sorted(need - shapes), sorted(shapes)))
+    by = lambda pred: copy.deepcopy(next(e for e in evs if pred(e)))
+    exact_dep = lambda e, a: (e["pred"]["dep"][a] and "F" in e["pred"]["dep"][a][0]["specified"] and e["pred"]["dep"][a][0]["spec"]["F"]["hi"]["k"] == "incl"
+                              and e["act"][a]["dep"]["F"]["a"] > 0)
+    muts = []
+    m = by(lambda e: exact_dep(e, "B") or exact_dep(e, "C")); a = "B" if exact_dep(m, "B") else "C"
+    m["act"][a]["dep"]["F"]["a"] += 400; m["act"][a]["net"]["F"] += 400; muts.append((m, "deposit-within-bounds:" + a))
+    m = by(lambda e: any(e["pred"]["dep"][a] and not e["pred"]["dep"][a][0]["unspec"] and "X" not in e["pred"]["dep"][a][0]["specified"] for a in ("B", "C")))
+    a = next(a for a in ("B", "C") if m["pred"]["dep"][a] and not m["pred"]["dep"][a][0]["unspec"] and "X" not in m["pred"]["dep"][a][0]["specified"])
+    m["act"][a]["dep"]["X"]["a"] += 4; m["act"][a]["net"]["X"] += 4; muts.append((m, "deposit-within-bounds:" + a))
+    m = by(lambda e: e["act"]["A"]["wd"]["F"]["a"] > 0); m["act"]["A"]["wd"]["F"]["a"] += 2; m["act"]["A"]["net"]["F"] -= 2; muts.append((m, "withdraw-as-predicted"))
+    m = by(lambda e: True); m["act"]["C"]["net"]["F"] += 4; muts.append((m, "measurement-consistent"))
+    chunks = 4 if q else 12
+    bad = validate_calls_why("Movements", "TraceMovements", "TraceMovements", evs + [m for m, _ in muts], "C38-mv", chunks=chunks)
+    for j, (m, reason) in enumerate(muts):
+        if reason not in bad.get(len(evs) + j, []):
+            raise ToolError("binding self-test (T) failed: corrupted run not rejected for '%s' (got %s)" % (reason, bad.get(len(evs) + j)))
+    for i in sorted(bad):
+        if i < len(evs):
+            e = evs[i]
+            ops = sorted({s["op"] for s in e["steps"]})
+            for why in bad[i]:
+                key = "movements:%s" % why
+                if why.startswith("deposit-within-bounds:"):
+                    a = why.split(":")[1]
+                    ai = "ABC".index(a)
+                    dep_ops = [s["op"] for s in e["steps"] if s.get("acct") == ai and s["op"] != "deposit_worktop" or (s.get("acct") == ai and s["op"] == "deposit_worktop")]
+                    refunded = all(v.get("a", 0) == 0 and not v.get("ids") for v in e["act"][a]["dep"].values())
+                    if e["state"] == 1 and a == "B" and dep_ops and dep_ops[0] in ("try_refund", "batch_refund") and refunded:
+                        key = "movements:try-deposit-or-refund:refund-reported-as-deposit"
+                    else:
+                        key = "movements:deposit-within-bounds:%s" % "+".join(dep_ops or ["none"])
+                viol.add(key, "TraceMovements: '%s' fails on ledger state %d: steps %s; predicted %s; actual %s" % (
+                    why, e["state"], json.dumps(e["steps"])[:400], json.dumps(e["pred"])[:500], json.dumps(e["act"])[:500]),
+                    {"event": e, "failed": bad[i], "ops": ops})
+    ctx.cov["traces_validated_against_impl"] += chunks
+    ctx.cov["evaluations"] += len(evs)
+    core.log("TraceMovements: %d runs, %.1fs" % (len(evs), time.time() - t0))
+    ctx.sample({"run": next(e for e in evs if e["state"] == 1 and e["act"]["B"]["dep"]["F"]["a"] == 0 and e["pred"]["dep"]["B"])})
+    ctx.sample({"run": next(e for e in evs if e["act"]["C"]["dep"]["N"]["ids"])})
+    ctx.sample({"analysis_refused": nopred[0] if nopred else "none in this run"})
+    return {"exhaustive": False, "distinct_nontrivial": len({json.dumps([e["steps"], e["state"]], sort_keys=True) for e in evs}),
+            "successful_runs": len(evs), "manifests_without_prediction": len(nopred), "harness_stats": stats,
+            "prediction_shapes": sorted(shapes), "violation_counts": dict(viol.seen),
+            "rule": "S: TLC explores a model of a manifest execution over one fungible resource (withdraw, call into an unknown component "
+                    "returning 0..2, take / take-all / return, worktop assertion, deposit, try-deposit-or-refund with either ledger "
+                    "answer) next to a reference interval analysis and checks that worktop, bucket, Deposited and Withdrawn always lie "
+                    "within the abstract bounds.  T: seeded V2 manifests (1-3 sources: account withdrawals of F / XRD / non-fungibles, "
+                    "faucet free; up to 6 worktop steps: take, take-all, take non-fungibles, return, ASSERT_WORKTOP_CONTAINS, "
+                    "ASSERT_WORKTOP_RESOURCES_INCLUDE / _ONLY, ASSERT_BUCKET_CONTENTS; at most one deposit call per account B / C of the "
+                    "kinds deposit, deposit_batch, try_deposit_or_refund, try_deposit_or_abort, try_deposit_batch_or_refund, entire "
+                    "worktop; the rest returns to A) analysed by StaticResourceMovementsVisitor and executed on two ledger states "
+                    "(B accepts deposits / B's default deposit rule is Reject, fresh ledgers every 40 manifests); for every successful "
+                    "run TraceMovements checks actual deposits (account events) against the predicted bounds with Sat, actual "
+                    "withdrawals against the predicted ones, and events against vault balances.  distinct = distinct (manifest, state)"}
+
+
 PROPS = {
     "C37": dict(fn=C37, level="model_checking", design_ref="5/C37",
                 technique="TLA+ spec Constraint (Sat, ValidFor, Normalize, the run-time algorithm Validate): TLC exhaustive over a bounded "
@@ -148,4 +337,40 @@ PROPS = {
                      "positive / unbounded upper bound are declared valid for fungible resources (the documentation allows the empty "
                      "allowlist only with upper bound zero); normalize() then shrinks the upper bound to 0 and changes the accepted "
                      "amounts."),
+    "C36": dict(fn=C36, level="model_checking", design_ref="5/C36",
+                technique="TLA+ spec ManifestLifecycle (declarative StaticOK over the whole instruction sequence = incremental automaton, "
+                          "checked equal by TLC): all short instruction sequences of every manifest kind replayed into "
+                          "StaticManifestInterpreter and executed on a ledger + random longer manifests validated by TraceLifecycle",
+                text="ManifestLifecycle.tla states when a manifest is well-formed: every bucket / proof / address reservation / named "
+                     "address / blob / child used was created or declared before and not consumed, nothing is consumed twice, no bucket "
+                     "is consumed while a live proof locks it, no bucket or reservation is left at the end, an "
+                     "ASSERT_NEXT_CALL_RETURNS is followed by an invocation, proofs do not cross intents, subintents end with "
+                     "YIELD_TO_PARENT and transaction intents do not use parent instructions.  TLC proves this declarative definition "
+                     "equal to an incremental automaton on all sequences up to the bound.  In the direction the property states, the real "
+                     "interpreter may accept a manifest only if StaticOK holds (for each rule set: all, cuttlefish, and "
+                     "babylon_equivalent with its weaker promises), and an accepted manifest executed on a ledger must not fail with an "
+                     "unknown / consumed id error.  Rejections of well-formed manifests are counted as information only.",
+                note="Instruction arguments are representative (TAKE_ALL of XRD, deposit_batch, Account::create_advanced for reservations); "
+                     "calls whose arguments the callee refuses stop the execution after the ids were resolved, so later instructions of "
+                     "those manifests are not exercised at run time.  A declared child that is never yielded to is a "
+                     "TransactionValidator matter (the engine panics on such an unvalidated test transaction: "
+                     "'kernel.substate_io.heap.is_empty()'), the harness yields to it / skips such subintents.  babylon_equivalent() is "
+                     "applied to V1 kinds only (it is never used for V2 manifests)."),
+    "C38": dict(fn=C38, level="model_checking", design_ref="5/C38",
+                technique="TLA+ spec Movements (concrete execution next to an interval analysis, soundness checked by TLC) + call-trace "
+                          "validation (TraceMovements, Sat of Constraint.tla) of the real StaticResourceMovementsVisitor's predictions "
+                          "against real executions on two ledger states",
+                text="Movements.tla states soundness of static movement bounds on a small model: whatever unknown components return and "
+                     "whichever way a try-deposit goes, the amounts an account receives and gives stay within the statically computed "
+                     "intervals; TLC checks it on all executions up to the bound.  The real analyser's resolve_account_deposits / "
+                     "resolve_account_withdraws are logged for seeded manifests and compared with what the same manifest actually did "
+                     "on two ledger states: every received resource must satisfy the predicted bounds (amount bounds, required ids, "
+                     "allowed ids; unmentioned resources only if 'unspecified resources may be present'), withdrawals must equal the "
+                     "predicted ones.  Manifests the analyser refuses are not violations.",
+                note="Each account receives at most one deposit call per manifest so that per-call predictions can be compared with "
+                     "per-account events.  resolve_account_changes (net view) is not checked.  Unknown sources are the faucet's free() "
+                     "and refund paths; no WASM / native test blueprint is used.  Non-fungible actuals come from account events "
+                     "(ids), amounts are cross-checked with vault balances.  Known disagreement recorded by this check: for "
+                     "try_deposit_or_refund / try_deposit_batch_or_refund the analyser reports the attempted amount as an exact deposit, "
+                     "although the account may refuse and refund it (observed: predicted exactly 1.5, received 0)."),
 }
